@@ -1,16 +1,20 @@
 """C18 — inconsistent simulation states are rejected, not simulated."""
 import copy
 import numpy as np
-from .. import common, energy, lifecycle
+from .. import common, energy, lifecycle, shapehist
 
 LEVEL = 'proof'
 RULE = ('every stage (constructed, materials, baked, sourced, exchanged) of random configurations (1-3 bands, '
         'single/multi-direction tables, attenuation) saved with to_dict; every corruption of the documented-constraint '
         'catalogue (42 entries) applicable to that state, plus the unmodified state; real from_dict outcome compared with '
-        'the generated checkGen(convert(.)) run by the driver; non-trivial = a corruption that changes the abstract configuration')
+        'the generated checkGen(convert(.)) run by the driver; non-trivial = a corruption that changes the abstract configuration; '
+        'plus random call histories on a real object (setters on all / some / no walls, mixed direction-set sizes, frequency mismatches, '
+        'source before bake, setters after bake, exchange with and without recalculation, restores anywhere; refused steps included): '
+        'after every step the shapes of everything to_dict() saves and whether from_dict accepts it, against the shape-level model Sparrow.Shape')
 ASSUMPTIONS = ['translator: AST patterns of __init__/check() mean in Python what the emitted Lean says (index accesses assumed in range)',
                'the abstraction of a dict to shapes/ids/scalars is done by the harness (np.shape of np.array(value))']
-EXPLANATION = 'check_sound: accepted => every documented constraint holds (all ranks/lengths/ids/scalars); rejection is always ValueError; valid states with every wall owning a patch are accepted.'
+EXPLANATION = ('check_sound: accepted => every documented constraint holds (all ranks/lengths/ids/scalars); rejection is always ValueError; valid states with every wall owning a patch are accepted; '
+               'reachable_accepted_iff: a state reachable by ANY call history is accepted on restore iff it is neither partially set (D13) nor stale (D15) - every other reachable state is accepted.')
 
 
 def sweep(ctx, sc, stages=None):
@@ -60,6 +64,8 @@ def run(ctx):
         sc = energy.gen_scene(ctx.rng, small=True, multi_dir=(k % 2 == 1), att_zero=False)
         sc['K'] = max(sc['K'], 1)
         sweep(ctx, sc)
+    # shape-level life cycle: random call histories (also irregular ones) against `Sparrow.Shape`
+    shapehist.corr(ctx, 10 if ctx.tier == 'quick' else 120)
 
 
 def oracle(ctx, budget_s=60):
@@ -67,6 +73,7 @@ def oracle(ctx, budget_s=60):
     while t.s() < budget_s and not ctx.violations:
         sc = energy.gen_scene(ctx.rng, small=True, att_zero=False)
         sweep(ctx, sc)
+        shapehist.corr(ctx, 10)
 
 
 def replay(ctx, rp):
